@@ -136,6 +136,29 @@ def import_mapping_and_flush(ctx, chk, R4):
             zipc = x
     chk.require(zipc is not None, 'import_objects: the returned mapping is not dict(zip(old, new)) any more')
     A, B = zipc.args[0].id, zipc.args[1].id
+    # nothing else enters the mapping: it mentions exactly the keys whose content was read from the source and written here
+    if isinstance(rets[-1].value, ast.Name):
+        mname = rets[-1].value.id
+        extra = []
+        for n in walk_local(fn.node):
+            if isinstance(n, ast.Call) and isinstance(n.func, ast.Attribute) and isinstance(n.func.value, ast.Name) and n.func.value.id == mname \
+                    and n.func.attr in ('setdefault', 'update', '__setitem__', 'pop', 'popitem', 'clear'):
+                extra.append(n)
+            elif isinstance(n, (ast.Assign, ast.AugAssign)):
+                for t in (n.targets if isinstance(n, ast.Assign) else [n.target]):
+                    if isinstance(t, ast.Subscript) and isinstance(t.value, ast.Name) and t.value.id == mname:
+                        extra.append(n)
+                    if isinstance(n, ast.AugAssign) and isinstance(t, ast.Name) and t.id == mname:
+                        extra.append(n)
+            elif isinstance(n, ast.Delete) and any(isinstance(t, ast.Subscript) and isinstance(t.value, ast.Name) and t.value.id == mname for t in n.targets):
+                extra.append(n)
+        nbind = [n for n in walk_local(fn.node) if isinstance(n, ast.Assign) and any(isinstance(t, ast.Name) and t.id == mname for t in n.targets)]
+        if extra or len(nbind) != 1:
+            w = (extra or nbind[1:])[0]
+            chk.bad(R4, IMPORT, norm(w)[:110], f'the returned mapping `{mname}` is changed after it was built from the (source key, destination key) pairs of the objects actually transferred: it would mention '
+                    'keys that were never read from the source (e.g. requested keys neither container holds) or drop transferred ones', where=f'{fn.module.relpath}:{w.lineno}')
+        else:
+            chk.ok(R4, IMPORT, f'{mname} = dict(zip({A}, {B}))', detail='the mapping is built once from the lockstep lists and returned unchanged')
 
     def growth(block, name):
         out = []
@@ -393,7 +416,7 @@ def run(ctx, host=None):
     # rules of other properties that are necessary conditions of this one too: imported bytes are identical only if the direct-to-pack write path round-trips (C01)
     if host is None:
         from ..report import host_modules
-        host_modules(chk, ctx, ['C01', 'C09'])
+        host_modules(chk, ctx, ['C01', 'C09', 'C17'])
 
     return chk.finish(
         explanation=('Static checks of import_objects: a linear typestate for every Iterable-annotated parameter of the package (at most one consumption per path before '
